@@ -18,6 +18,12 @@ CHECKS = {
         note="Trusted base: vlib/gen_expr.rev evaluator, brute-force enumeration, vlib/sexp + vlib/fakesolver as a correct external solver (cross-checked against refz3). Real Sugar/csugar/cspuz_core binaries are not available offline. 9/9 sensitivity mutants caught.",
         design_ref="3/C02",
     ),
+    "C12": dict(
+        technique="Hypothesis-generated operator/operand-kind/shape cases evaluated element by element with a reference evaluator; ill-formed uses must raise",
+        text="Every operator form of the four array classes (array-array, array-scalar, scalar-array incl. reflected forms, Python literals, unary, then/cond as methods and as free functions) on 1-D/2-D shapes incl. empty and 1xN is executed; each result element is evaluated under generated assignments and compared with the Python operator applied to the evaluated operands in written order; result class and shape are checked; ill-typed and ill-shaped uses must raise. Helpers take generated nested arguments (lists, tuples, generators, arrays, literals, empty); conv2d for all window sizes 1..dim+1; four_neighbors on every cell of shapes up to 4x4. Exploration (sampled).",
+        note="Trusted base: vlib/refsem evaluator. ==/!= between Bool and Int operands and wrong-sort Python literals in array operators are outside the rejection claim. 11/11 sensitivity mutants caught.",
+        design_ref="3/C12",
+    ),
     "C13": dict(
         technique="exhaustive small-scope enumeration + Hypothesis key pairs against Python list indexing (differential oracle)",
         text="Every integer key, slice triple (bounds in [-size-3,size+3], steps +-1,2,3,5), key pair, coordinate list, flatten and reshape on all 1-D sizes 0..6 and 2-D shapes up to 4x4 (plus 2x5/5x2/1x6) is compared with Python's own list indexing; exhaustive inside that scope, sampled by Hypothesis beyond it. Exploration level: no absence proof beyond the scope, but the code has no size-dependent branch other than the per-axis normalisation the scope crosses.",
